@@ -42,6 +42,7 @@ func defaultFileIndex(stores context2.Stores) *fileIndex {
 
 func newFileIndex(stores context2.Stores, opts ...fileIndexOption) *fileIndex {
 	f := defaultFileIndex(stores)
+	f.entriesPerFile = indexEntriesPerFile(f.entriesPerFile) // identity unless built with the verif tag
 	for _, apply := range opts {
 		apply(f)
 	}
